@@ -6,7 +6,8 @@ Statement (properties.jsonl): emitting an interface as a declarative class, a `T
 parsing the rendered source back yields the same columns (names, order, scalar/Enum types, nullability, defaults,
 descriptions, primary- and foreign-key markers); parsing any of the three emissions gives the same result; every emission
 has exactly one primary key.  Quantifier: all interfaces of the SQL-representable domain × the three variants ×
-`force_pk_id ∈ {True, False}` (the docstring style only reaches the header docstring, which the model leaves out).
+`force_pk_id ∈ {True, False}` (the docstring style only reaches the header docstring: the model keeps the text every
+emitter hands to the docstring emitter, `header_text_agrees`, and leaves the docstring emitter/parser itself out).
 
 The model is `CddVerif/Model/Sql.lean` (tied to /repo by `harness/props/c05.py`); the two type tables are
 `Gen.SqlTables`, regenerated from /repo on every run.
@@ -18,6 +19,8 @@ The model is `CddVerif/Model/Sql.lean` (tied to /repo by `harness/props/c05.py`)
         `normDoc_clean`, `normVal_plain` say the per-column normalisation is the identity on clean descriptions / plain
         defaults (up to the `.` appended to the description of a column with a default).
         Negations on witnesses: `dict_becomes_optional`, `single_literal_lost`, `ensurePK_replaces_id`, `C05_full_false`.
+* header: `header_text_agrees` — the text handed to the docstring emitter agrees between the variants (the docstring
+        emitter / parser themselves are not modelled); `header_text_before_fix` records the repaired defect.
 * (iii) `variants_agree` — **full** (every parameter dict, typed or not, failing or not), `table_to_class_round_trip`.
 -/
 namespace C05
@@ -61,40 +64,40 @@ theorem one_pk_table (force : Bool) (ir : IR) (a : Str × TableCall) (hnd : (key
     exact one_pk true force ir.params cols hnd hm hc
 
 /-- **(i)** for the declarative class emission -/
-theorem one_pk_class (force hasDoc : Bool) (ir : IR) (cls : ClassDef) (hnd : (keys ir.params).Nodup)
-    (hm : markerCount ir.params ≤ 1) (h : emitClass force hasDoc ir = .ok cls) : countPK (emissionCols cls) = 1 := by
-  unfold emitClass at h
+theorem one_pk_class (force : Bool) (ir : IR) (cls : ClassDef) (hnd : (keys ir.params).Nodup)
+    (hm : markerCount ir.params ≤ 1) (h : emitClass force ir = .ok cls) : countPK (emissionCols cls) = 1 := by
+  unfold emitClass headerStmts at h
   cases hc : emitCols false force ir.params with
   | error e => rw [hc] at h; cases h
   | ok cols =>
     rw [hc] at h
     cases h
-    have : emissionCols ⟨ir.name, (if hasDoc then [Stmt.docstring] else []) ++ (Stmt.assignStr c!"__tablename__" (setValueStr ir.name) ::
+    have : emissionCols ⟨ir.name, (if classHasDoc ir then [Stmt.docstring ir.doc] else []) ++ (Stmt.assignStr c!"__tablename__" (setValueStr ir.name) ::
           (cols.map (fun kc => Stmt.assignCol kc.1 kc.2) ++ [Stmt.funcDef c!"__repr__"]))⟩ = cols.map (·.2) := by
       have hfm : ∀ l : List (Str × ColumnCall), List.flatMap (fun a => [a.snd]) l = l.map (·.2) := by
         intro l; induction l with
         | nil => rfl
         | cons a as ih => simp [List.flatMap_cons, ih]
       unfold emissionCols
-      cases hasDoc <;> simp [List.flatMap_cons, List.flatMap_append, List.flatMap_map, hfm]
+      cases classHasDoc ir <;> simp [List.flatMap_cons, List.flatMap_append, List.flatMap_map, hfm]
     rw [this]
     exact one_pk false force ir.params cols hnd hm hc
 
 /-- **(i)** for the hybrid emission (`force_pk_id` is handed on to the inner `Table`) -/
-theorem one_pk_hybrid (force hasDoc : Bool) (ir : IR) (cls : ClassDef) (hnd : (keys ir.params).Nodup)
-    (hm : markerCount ir.params ≤ 1) (h : emitHybrid force hasDoc ir = .ok cls) : countPK (emissionCols cls) = 1 := by
-  unfold emitHybrid emitTableNamed at h
+theorem one_pk_hybrid (force : Bool) (ir : IR) (cls : ClassDef) (hnd : (keys ir.params).Nodup)
+    (hm : markerCount ir.params ≤ 1) (h : emitHybrid force ir = .ok cls) : countPK (emissionCols cls) = 1 := by
+  unfold emitHybrid emitTableNamed headerStmts at h
   cases hc : emitCols true force ir.params with
   | error e => rw [hc] at h; cases h
   | ok cols =>
     rw [hc] at h
     cases h
-    have : ∀ (t : Str) (tbl : TableCall), emissionCols ⟨ir.name, (if hasDoc then [Stmt.docstring] else []) ++
+    have : ∀ (t : Str) (tbl : TableCall), emissionCols ⟨ir.name, (if classHasDoc ir then [Stmt.docstring ir.doc] else []) ++
           [Stmt.assignStr c!"__tablename__" (setValueStr ir.name),
            Stmt.assignTable t tbl, Stmt.funcDef c!"__repr__", Stmt.funcDef c!"create_from_attr"]⟩ = tbl.cols := by
       intro t tbl
       unfold emissionCols
-      cases hasDoc <;> simp [List.flatMap_cons]
+      cases classHasDoc ir <;> simp [List.flatMap_cons]
     rw [this]
     exact one_pk true force ir.params cols hnd hm hc
 
@@ -164,19 +167,19 @@ theorem columns_round_trip (force : Bool) (ir : IR) (hdom : ∀ kv ∈ ir.params
   table_round_trip force ir hdom hnd hname hne
 
 /-- … and so do the class and the hybrid emission (by `variants_agree`) -/
-theorem all_variants_round_trip (force hasDoc : Bool) (ir : IR) (hdom : ∀ kv ∈ ir.params, inDomain kv.1 kv.2 = true)
+theorem all_variants_round_trip (force : Bool) (ir : IR) (hdom : ∀ kv ∈ ir.params, inDomain kv.1 kv.2 = true)
     (hnd : (keys ir.params).Nodup) (hk : plainNames (keys ir.params)) (hname : setValueStr ir.name = ir.name) (hne : ir.name ≠ []) :
-    andThen (emitClass force hasDoc ir) parseClass =
+    andThen (emitClass force ir) parseClass =
       .ok { name := ir.name, params := (ensurePK force ir.params).map (fun kv => (kv.1, normSql kv.1 kv.2)) } ∧
-    andThen (emitHybrid force hasDoc ir) parseClass =
+    andThen (emitHybrid force ir) parseClass =
       .ok { name := ir.name, params := (ensurePK force ir.params).map (fun kv => (kv.1, normSql kv.1 kv.2)) } := by
-  have h := variants_agree_aux force hasDoc ir hk hname hne
+  have h := variants_agree_aux force ir hk hname hne
   rw [h.1, h.2]
   exact ⟨table_round_trip force ir hdom hnd hname hne, table_round_trip force ir hdom hnd hname hne⟩
 
 /-- non-vacuity of the lifted round trip (two columns, the candidate rule picks `dataset_name`) -/
 example : andThen (emitTable false ⟨c!"Foo", [(c!"dataset_name", ⟨some (some (.name c!"str")), some c!"the name", some (.str c!"mnist"), none, none, none⟩),
-                                              (c!"n", { typ := some (some (.optional (.name c!"int"))) })]⟩) parseTable =
+                                              (c!"n", { typ := some (some (.optional (.name c!"int"))) })], c!"Summary line.", false, false⟩) parseTable =
     .ok ⟨c!"Foo", [(c!"dataset_name", ⟨some c!"str", some c!"String", some c!"[PK] the name.", some (.str c!"mnist"), none, none, none⟩),
                    (c!"n", { typ := some c!"Optional[int]", xSqlType := some c!"Integer" })]⟩ := by decide
 
@@ -238,11 +241,11 @@ def inPropertyDomain (name : Str) (p : Param) : Bool :=
     the three variants parse to the same thing, the parse is the normal form of the input, and the primary-key
     normalisation only marks or adds a column. -/
 def C05_full : Prop :=
-  ∀ (force hasDoc : Bool) (ir : IR), (∀ kv ∈ ir.params, inPropertyDomain kv.1 kv.2 = true) → (keys ir.params).Nodup →
+  ∀ (force : Bool) (ir : IR), (∀ kv ∈ ir.params, inPropertyDomain kv.1 kv.2 = true) → (keys ir.params).Nodup →
     markerCount ir.params ≤ 1 → plainNames (keys ir.params) → setValueStr ir.name = ir.name → ir.name ≠ [] →
     (∀ a, emitTable force ir = .ok a → countPK a.2.cols = 1) ∧
-    andThen (emitClass force hasDoc ir) parseClass = andThen (emitTable force ir) parseTable ∧
-    andThen (emitHybrid force hasDoc ir) parseClass = andThen (emitTable force ir) parseTable ∧
+    andThen (emitClass force ir) parseClass = andThen (emitTable force ir) parseTable ∧
+    andThen (emitHybrid force ir) parseClass = andThen (emitTable force ir) parseTable ∧
     andThen (emitTable force ir) parseTable =
       .ok { name := ir.name, params := (ensurePK force ir.params).map (fun kv => (kv.1, normSql kv.1 kv.2)) } ∧
     (ensurePK force ir.params = ir.params ∨ (∃ c, c ∈ keys ir.params ∧ ensurePK force ir.params = modify ir.params c markPK) ∨
@@ -253,24 +256,83 @@ def C05_full : Prop :=
     (`columns_round_trip`), the fifth under `KeepsColumns` (`ensurePK_keeps_columns`). -/
 theorem C05_full_false : ¬ C05_full := by
   intro h
-  have := (h false false { name := c!"Foo", params := [(c!"dataset_name", { typ := some (some (.name c!"dict")) })] }
+  have := (h false { name := c!"Foo", params := [(c!"dataset_name", { typ := some (some (.name c!"dict")) })] }
     (by decide) (by decide) (by decide) (by decide) (by decide) (by decide)).2.2.2.1
   revert this
   decide
+
+/-! ## the header description (the interface's own `doc`) -/
+
+/-- the `Table(…)` bound inside a hybrid class body -/
+def hybridTable (cls : ClassDef) : Option TableCall :=
+  cls.body.findSome? (fun s => match s with
+    | .assignTable _ t => some t
+    | _ => none)
+
+/-- **header description.** For every interface and both values of `force_pk_id`: the `Table` emission hands
+    `doc.lstrip() + ("\n\n" if returns else "")` to the docstring emitter (and attempts a `comment=` iff `doc` is not
+    empty); the hybrid emission's inner table carries the same text and its class docstring is the class emission's;
+    the class emission hands over `doc` itself.  So without a `returns` entry **all three variants carry the
+    description, or none does, and the texts agree up to leading whitespace** — the docstring emitter/parser that
+    render and read it are outside the model; the harness feeds these texts to the real docstring emitter and
+    compares with the emitted `comment=` / docstring, and checks on the real parses that the three header docs agree. -/
+theorem header_text_agrees (force : Bool) (ir : IR) (tbl : Str × TableCall) (cls hyb : ClassDef)
+    (hT : emitTable force ir = .ok tbl) (hC : emitClass force ir = .ok cls) (hH : emitHybrid force ir = .ok hyb) :
+    tbl.2.headerText = tableHeaderText ir ∧
+    (hybridTable hyb).map (·.headerText) = some tbl.2.headerText ∧
+    cls.docText = (if classHasDoc ir then some ir.doc else none) ∧
+    hyb.docText = cls.docText ∧
+    (ir.hasReturns = false → ir.returnsHasDoc = false → tbl.2.headerText = cls.docText.map lstrip) := by
+  unfold emitTable emitTableNamed at hT
+  unfold emitClass headerStmts at hC
+  unfold emitHybrid emitTableNamed headerStmts at hH
+  cases hc : emitCols true force ir.params with
+  | error e => rw [hc] at hT; cases hT
+  | ok cols =>
+    cases hc' : emitCols false force ir.params with
+    | error e => rw [hc'] at hC; cases hC
+    | ok cols' =>
+      rw [hc] at hT hH
+      rw [hc'] at hC
+      cases hT; cases hC; cases hH
+      refine ⟨rfl, ?_, ?_, ?_, ?_⟩
+      · unfold hybridTable
+        cases classHasDoc ir <;> simp
+      · unfold ClassDef.docText
+        cases classHasDoc ir <;> simp
+      · unfold ClassDef.docText
+        cases classHasDoc ir <;> simp
+      · intro h1 h2
+        unfold ClassDef.docText tableHeaderText classHasDoc
+        rw [h1, h2]
+        cases hd : ir.doc.isEmpty <;> simp
+
+/-- non-vacuity of `header_text_agrees`: a described interface without `returns` — all three emissions carry it -/
+example : (emitTable false { name := c!"Foo", params := [], doc := c!"  Summary line." }).map (·.2.headerText) = .ok (some c!"Summary line.") ∧
+    (emitClass false { name := c!"Foo", params := [], doc := c!"  Summary line." }).map (·.docText) = .ok (some c!"  Summary line.") ∧
+    (emitHybrid false { name := c!"Foo", params := [], doc := c!"  Summary line." }).map (fun c => (hybridTable c).map (·.headerText))
+      = .ok (some (some c!"Summary line.")) := by decide
+
+/-- the defect repaired by the `fix:` commit "sqlalchemy_table emit dropped the table's doc …": the unparenthesised
+    conditional `doc.lstrip() + "\n\n" if returns else ""` handed the *empty* text to the docstring emitter whenever the
+    interface had no `returns` entry, so `Table` and hybrid emissions lost the description the class emission kept. -/
+theorem header_text_before_fix :
+    tableHeaderTextBeforeFix { name := c!"Foo", params := [], doc := c!"Summary line." } = some [] ∧
+    tableHeaderText { name := c!"Foo", params := [], doc := c!"Summary line." } = some c!"Summary line." := by decide
 
 /-! ## (iii) the three variants agree -/
 
 /-- **(iii).** For every interface whose columns are not called `__tablename__` / `__table__` (any types, any
     descriptions, in or out of the domain, failing or not) and both values of `force_pk_id`: parsing the class
     emission, parsing the hybrid emission and parsing the `Table` emission give the same result (or fail alike). -/
-theorem variants_agree (force hasDoc : Bool) (ir : IR) (hk : plainNames (keys ir.params))
+theorem variants_agree (force : Bool) (ir : IR) (hk : plainNames (keys ir.params))
     (hname : setValueStr ir.name = ir.name) (hne : ir.name ≠ []) :
-    andThen (emitClass force hasDoc ir) parseClass = andThen (emitTable force ir) parseTable ∧
-    andThen (emitHybrid force hasDoc ir) parseClass = andThen (emitTable force ir) parseTable :=
-  variants_agree_aux force hasDoc ir hk hname hne
+    andThen (emitClass force ir) parseClass = andThen (emitTable force ir) parseTable ∧
+    andThen (emitHybrid force ir) parseClass = andThen (emitTable force ir) parseTable :=
+  variants_agree_aux force ir hk hname hne
 
 /-- non-vacuity of (iii): a successful three-way agreement with an out-of-domain column, `_id` and `_rev` as columns -/
-example : andThen (emitClass true true ⟨c!"T", [(c!"_id", { typ := some (some (.name c!"str")) }), (c!"_rev", { doc := some c!"rev." })]⟩) parseClass
+example : andThen (emitClass true ⟨c!"T", [(c!"_id", { typ := some (some (.name c!"str")) }), (c!"_rev", { doc := some c!"rev." })], c!"A table.", false, false⟩) parseClass
     = .ok ⟨c!"T", [(c!"_id", { typ := some c!"str", xSqlType := some c!"String" }),
                    (c!"_rev", { typ := some c!"BlobProperty", xSqlType := some c!"LargeBinary", doc := some c!"rev" }),
                    (c!"id", ⟨some c!"int", some c!"Integer", some c!"[PK]", none, some (.code c!"Identity()"), none, none⟩)]⟩ := by decide
@@ -287,7 +349,7 @@ theorem table_to_class_round_trip (target t m : Str) (cols : List (Str × Column
     parser — names starting with an underscore (`_id`, `_rev`, `__x`) are columns like any other. -/
 theorem underscore_names_are_columns :
     (∀ s : Stmt, isColumnStmt s = true ↔ ∃ t, s.target? = some t ∧ t ≠ c!"__tablename__") ∧
-    parseClass ⟨c!"T", [.docstring, .assignStr c!"__tablename__" c!"t",
+    parseClass ⟨c!"T", [.docstring c!"Doc.", .assignStr c!"__tablename__" c!"t",
                         .assignCol c!"_id" ⟨[.name c!"Integer"], [(c!"primary_key", .bool true)]⟩,
                         .assignCol c!"__x" ⟨[.name c!"String"], []⟩, .funcDef c!"__repr__"]⟩
       = .ok ⟨c!"t", [(c!"_id", { typ := some c!"int", xSqlType := some c!"Integer", doc := some c!"[PK]" }),
